@@ -34,13 +34,19 @@ ASSUMPTIONS = [
     "rdflib.plugins.sparql.SPARQL_LOAD_GRAPHS is False (USING copies a known graph instead of fetching its IRI)",
     "store is Memory (graph_aware); front ends are exactly Graph, ConjunctiveGraph, Dataset(default_union=False)",
     "blank nodes are not written in INSERT DATA / DELETE DATA (rdflib keeps their labels, outside the model)",
-    "WHERE patterns under WITH/USING do not use GRAPH; USING NAMED only occurs together with USING",
+    "WHERE under WITH alone does not use GRAPH; under USING / USING NAMED (also USING NAMED alone) the solution list is "
+    "computed on the dataset SPARQL 1.1 Update 3.1.3 prescribes (default graph = merge of the USING graphs, empty without "
+    "USING; named graphs = the USING NAMED graphs) and the pattern is free of GRAPH or GRAPH <one of the USING NAMED graphs>",
+    "the request text spells a graph's template/data triples as one GRAPH group or (case field split) as two interleaved "
+    "GRAPH groups; the model has one block per graph",
     "a graph absent from the store is the empty graph (no failure demanded for missing graphs)",
     "all graph names minted for an unbound GRAPH ?g are collapsed into graph id 900",
 ]
 RULE = (
     "1-3 operations over 1-3 graphs (graph ids 1,2,5 addressable, 3 blank-node named), 3 subjects x 2 predicates x 5 objects; "
     "templates are drawn from variables s,p,o,z,g so that one solution's insertion is another's deletion (swap on 2-cycles); "
+    "WITH x {none, USING, USING + USING NAMED, USING NAMED only}; 35 % of the cases spell graphs as repeated, interleaved "
+    "GRAPH groups (INSERT/DELETE DATA, DELETE WHERE, both templates); "
     "a case is non-trivial when the request changes the store or raises"
 )
 
